@@ -205,6 +205,7 @@ CHECKS = {
         "tests": [
             {"name": "TestC07Escape", "checks": [3000, 300000], "shards": [1, 16], "floor": 0.6},
             {"name": "TestC07Routes", "checks": [3000, 300000], "shards": [1, 8], "floor": 0.6},
+            {"name": "TestC07Concurrent", "checks": [60, 2000], "shards": [1, 8], "race": True},
             {"name": "TestC07Codepoints", "enum": True},
             K,
         ],
